@@ -1231,6 +1231,12 @@ func (x *Exec) allocLit(e *ast.CompositeLit, st *State) Value {
 			}
 			key := x.fieldKey(t, f)
 			x.setHeap(st, key, vSto(x.getHeap(st, key), r, sv.get(f.Name())))
+			// a channel made here and stored in an externally-closable field starts open
+			if a := x.prog.Contracts.Chans[structName(t)+"."+f.Name()]; a != nil && a.ExtClose {
+				if cv, ok := sv.get(f.Name()).(Term); ok && st.local[cv.S] {
+					x.setHeap(st, x.xclosedKey(structName(t)+"."+f.Name()), tFalse)
+				}
+			}
 		}
 		for _, tok := range x.prog.Contracts.AllocGrants[structName(t)] {
 			x.setHeap(st, x.tokKey(tok), tTrue)
